@@ -15,7 +15,9 @@ import subprocess
 import sys
 
 prop = sys.argv[1]
-WT = "/tmp/seed/%s" % prop
+ROOT = os.environ.get("SEED_ROOT", "/tmp/seed")          # round 2: SEED_ROOT=/tmp/seed2 SEED_OFFSET=3
+OFFSET = int(os.environ.get("SEED_OFFSET", "0"))
+WT = "%s/%s" % (ROOT, prop)
 OUT = os.path.join(WT, "out")
 DEST = "/verif/seeded/%s" % prop
 ENV = dict(os.environ, PYTHONPATH=WT + "/src", PYTHONHASHSEED="0")
@@ -80,7 +82,7 @@ for name, r in results.items():
     r["demo_exit_clean"] = rc
     r["confirmed"] = ("1468 passed" in r["suite"]) and r["demo_exit_mutated"] == 1 and rc == 0
     if r["confirmed"]:
-        dd = os.path.join(DEST, name)
+        dd = os.path.join(DEST, "m%d" % (int(name[1:]) + OFFSET))
         os.makedirs(dd, exist_ok=True)
         shutil.copy(os.path.join(OUT, name + ".diff"), os.path.join(dd, "patch.diff"))
         shutil.copy(os.path.join(OUT, name + "_demo.py"), os.path.join(dd, "demo.py"))
@@ -88,7 +90,10 @@ for name, r in results.items():
             meta = json.load(open(os.path.join(OUT, name + ".json")))
         except Exception:  # noqa
             meta = {}
-        meta.update({"property": prop, "origin": "fresh sub-agent given only the property text and a scratch worktree",
+        for extra in glob.glob(os.path.join(OUT, "*.py")):
+            if not os.path.basename(extra).startswith("m"):
+                shutil.copy(extra, os.path.join(dd, os.path.basename(extra)))   # helper modules of the demonstration
+        meta.update({"property": prop, "origin": "fresh sub-agent given only the property text and a scratch worktree" + (" (second round: told which changes had been tried before)" if OFFSET else ""),
                      "confirmed": {"existing_suite": r["suite"], "demo_exit_on_mutated_build": r["demo_exit_mutated"], "demo_exit_on_clean_build": rc,
                                    "demo_output_on_mutated_build": r["demo_out"][-300:]}})
         json.dump(meta, open(os.path.join(dd, "meta.json"), "w"), indent=1)
